@@ -1,3 +1,4 @@
+import ClusterVerif.Model.C16Http
 /-!
 # C16 — model of `ipfshttp.Connector.Pin / Unpin / PinLsCid` against a scripted daemon
 
@@ -7,9 +8,10 @@ Core Lean only.  Transcribed from `/repo/ipfsconn/ipfshttp/ipfshttp.go`
 `PinDepth.ToPinMode`).
 
 The other side of the conversation is a daemon with a pin table `cid → state`
-and one scripted *behaviour* per sequential request.  A behaviour says in which
-wire form the daemon answers; every behaviour is mapped to the *class* the
-connector can tell apart (`clsOf`).  A daemon that answers 200 has done what was
+and one scripted *behaviour* per sequential request.  A behaviour is a point of
+the product space of `Model/C16Http.lean` (status code × content type × body
+shape × transport); the *class* the connector can tell apart is computed from it
+through the interpreted HTTP helpers (`clsAt`, `clsFirst`).  A daemon that answers 200 has done what was
 asked; a daemon that answers non-200 has done nothing.  `serr` is what go-ipfs
 sends when a pin fails after the first progress message: status 200 is already
 on the wire, the error travels as an object inside the stream and/or in the
@@ -29,74 +31,38 @@ abbrev Table := Nat → PState
 
 def Table.set (t : Table) (c : Nat) (s : PState) : Table := fun x => if x = c then s else t x
 
-/-- scripted behaviour of the daemon for one request (wire forms) -/
-inductive Beh
-  | ok     -- behaves like go-ipfs (including its own refusals)
-  | oka    -- (first pin/ls only) truthful, but lists the pin whatever `type=` filter was asked; elsewhere = ok
-  | e      -- HTTP 500, IPFS error JSON object, some other message
-  | np     -- HTTP 500, IPFS error JSON object, message exactly "not pinned or pinned indirectly"
-  | npx    -- HTTP 500, IPFS error JSON object, a near miss of the not-pinned text
-  | ap     -- HTTP 500, IPFS error JSON object, "<cid> already pinned recursively"
-  | jnull  -- HTTP 500, body `null` (valid JSON: an IPFS error with empty message)
-  | nj     -- HTTP 500, body is not JSON
-  | empty  -- HTTP 500, empty body
-  | nj4    -- HTTP 404, plain text
-  | jarr   -- HTTP 500, JSON that is not an object
-  | d0     -- connection closed before any response byte
-  | dcl    -- 200 + Content-Length, body cut short, connection closed
-  | dch    -- 200 + chunked, no terminating chunk, connection closed
-  | dchp   -- as `dch`, but the daemon had already done what was asked
-  | st     -- never answers
-  | ps     -- answers 200, sends some progress, then never continues
-  | pss    -- (pin/add) keeps the stream alive but the progress number never rises
-  | slow   -- (pin/add) slow stream with rising progress, completes
-  | serr   -- (pin/add) 200 stream that carries an IPFS error object and/or the X-Stream-Error trailer, nothing pinned
-  | b200   -- 200, done what was asked, body unparsable
-  deriving DecidableEq, Repr, Inhabited
+/-- the reply of a daemon that behaves: 200, JSON, the endpoint's own reply, all of it arrives -/
+def Beh.ok : Beh := ⟨200, .json, .expected, .full⟩
 
-/-- what the connector can tell apart -/
-inductive Cls
-  | honest      -- 200, effect applied, well-formed body (or go-ipfs' own refusal)
-  | honestAny   -- (first pin/ls only) as honest, the type filter not honoured
-  | ipfsErr     -- non-200 + IPFS error object, text not the tolerated one; no effect
-  | notPinned   -- non-200 + IPFS error object with exactly the ErrNotPinned text; no effect
-  | hardFail    -- non-JSON error reply or connection dropped; no effect
-  | lostReply   -- effect applied, connection dropped inside the reply
-  | stall       -- no (complete) reply, ever
-  | noProgress  -- (pin/add) stream alive, progress stuck
-  | slowOk      -- (pin/add) slow but progressing, completes
-  | streamErr   -- (pin/add) error object inside a 200 stream and/or error trailer; no effect
-  | badBody     -- 200, effect applied, unparsable body
-  deriving DecidableEq, Repr
+/-- The named wire forms of the first rounds, as points of the product space (`w` = the wire variant
+of the case line, which chooses among equivalent forms: which non-200 status). -/
+def Beh.named (name : String) (w : Nat := 0) : Option Beh :=
+  match name with
+  | "ok" => some Beh.ok
+  | "oka" => some ⟨200, .json, .expectedAny, .full⟩
+  | "e" => some ⟨500, .json, .errObj .other, .full⟩
+  | "np" => some ⟨500, .json, .errObj .notPinned, .full⟩
+  | "npx" => some ⟨500, .json, .errObj .near, .full⟩
+  | "ap" => some ⟨500, .json, .errObj .already, .full⟩
+  | "jnull" => some ⟨500, .json, .jnull, .full⟩
+  | "nj" => some ⟨[500, 502, 503].getD (w % 3) 500, .none, .nonJson, .full⟩
+  | "empty" => some ⟨[500, 403, 400].getD (w % 3) 500, .none, .empty, .full⟩
+  | "nj4" => some ⟨404, .none, .nonJson, .full⟩
+  | "jarr" => some ⟨500, .json, .otherJson, .full⟩
+  | "d0" => some ⟨200, .none, .empty, .noHeaders⟩
+  | "dcl" => some ⟨200, .json, .nonJson, .cut false⟩
+  | "dch" => some ⟨200, .json, .nonJson, .cut false⟩
+  | "dchp" => some ⟨200, .json, .nonJson, .cut true⟩
+  | "st" => some ⟨200, .none, .empty, .stallHeaders⟩
+  | "ps" => some ⟨200, .json, .nonJson, .stallBody⟩
+  | "pss" => some ⟨200, .json, .stuck, .full⟩
+  | "slow" => some ⟨200, .json, .slow, .full⟩
+  | "serr" => some ⟨200, .json, .serr, .full⟩
+  | "b200" => some ⟨200, .none, .nonJson, .full⟩
+  | _ => none
 
-def clsOf : Beh → Cls
-  | .ok => .honest
-  | .oka => .honestAny
-  | .e | .npx | .ap | .jnull => .ipfsErr
-  | .np => .notPinned
-  | .nj | .empty | .nj4 | .jarr | .d0 | .dcl | .dch => .hardFail
-  | .dchp => .lostReply
-  | .st | .ps => .stall
-  | .pss => .noProgress
-  | .slow => .slowOk
-  | .serr => .streamErr
-  | .b200 => .badBody
-
-/-- the stream behaviours only exist on `pin/add`; elsewhere the daemon falls
-back to the plain form (`pss`,`slow` ↦ honest, `serr` ↦ IPFS error reply). -/
-def clsAt (isAdd : Bool) (b : Beh) : Cls :=
-  match clsOf b with
-  | .noProgress => if isAdd then .noProgress else .honest
-  | .slowOk => if isAdd then .slowOk else .honest
-  | .streamErr => if isAdd then .streamErr else .ipfsErr
-  | .honestAny => .honest
-  | c => c
-
-/-- class of the answer to the first request of `Pin` / `PinLsCid` (the lookup of the CID itself) -/
-def clsFirst (b : Beh) : Cls :=
-  match clsOf b with
-  | .honestAny => .honestAny
-  | _ => clsAt false b
+/-- a named form, `Beh.ok` for an unknown name -/
+def Beh.of (name : String) : Beh := (Beh.named name).getD Beh.ok
 
 /-- requests as the daemon sees them (endpoint + the parameters that matter) -/
 inductive Req
@@ -137,7 +103,7 @@ structure Input where
   table : Table
   script : List Beh       -- behaviour of the k-th sequential (non-swarm) request
 
-def Input.beh (i : Input) (k : Nat) : Beh := i.script.getD k .ok
+def Input.beh (i : Input) (k : Nat) : Beh := i.script.getD k Beh.ok
 
 /-- what the implementation run shows -/
 structure Output where
@@ -211,7 +177,7 @@ def addCall (t : Table) (c : Nat) (depth : Int) (b : Beh) : Res × Table :=
   | .streamErr => (.err, t)    -- a message with Type "error", or a non-empty X-Stream-Error trailer at EOF
   | _ => (.err, t)
 
-/-- `pinUpdate`: plain `postCtx`, no deadline of its own -/
+/-- `pinUpdate`: a plain `postCtx` under a `PinTimeout` deadline (no progress is reported) -/
 def updCall (t : Table) (f c : Nat) (b : Beh) : Res × Table :=
   match clsAt false b with
   | .honest | .badBody =>
@@ -222,7 +188,6 @@ def updCall (t : Table) (f c : Nat) (b : Beh) : Res × Table :=
     match updHonest t f c false with
     | some t' => (.err, t')
     | none => (.err, t)
-  | .stall => (.errctx, t)
   | _ => (.err, t)
 
 /-- `Unpin` after the `UnpinDisable` test -/
@@ -253,7 +218,7 @@ def pin (i : Input) : MOut :=
         ⟨x.1, [r0, addReq i.cid i.depth], x.2, sw⟩
       | some f =>
         let r1 := Req.ls f i.modeRec
-        if lsCid i.table f i.modeRec (clsAt false (i.beh 1)) = .status .r then
+        if lsCid i.table f i.modeRec (clsFirst (i.beh 1)) = .status .r then
           let x := updCall i.table f i.cid (i.beh 2)
           ⟨x.1, [r0, r1, .upd f i.cid false], x.2, sw⟩
         else
